@@ -68,9 +68,16 @@ fn run_mom<T: MomT>(steps: &[Step], line: &Value, e: &Embedding, rep: &mut Repor
         match s.kind.as_str() {
             "new" => obj = Some(T::new()),
             "default" => obj = Some(T::default_()),
-            "collect_val" => obj = Some(T::collect_val(&xs)),
+            "collect_val" => obj = Some(if xs.len() % 2 == 1 { T::collect_val_lazy(&xs) } else { T::collect_val(&xs) }),
             "collect_ref" => obj = Some(T::collect_ref(&xs)),
-            "extend_val" => obj.as_mut().unwrap().extend_val(&xs),
+            // iterators that know their length and iterators that do not (size_hint lower bound 0)
+            "extend_val" => {
+                if xs.len() % 2 == 1 {
+                    obj.as_mut().unwrap().extend_val_lazy(&xs)
+                } else {
+                    obj.as_mut().unwrap().extend_val(&xs)
+                }
+            }
             "extend_ref" => obj.as_mut().unwrap().extend_ref(&xs),
             "add" => obj.as_mut().unwrap().add(xs[0]),
             k => panic!("step {k}"),
@@ -180,7 +187,7 @@ fn run_pair<T: PairT>(steps: &[Step], line: &Value, e: &Embedding, rep: &mut Rep
     let mut f = |xs: &[i64]| -> Vec<(f64, f64)> {
         xs.iter()
             .map(|&v| {
-                let w = [1.0, 0.0, 2.5, 0.5][(pos + (v + 3) as usize) % 4];
+                let w = [1.0, 0.0, 0.17, 2.5, 0.27][(pos + (v + 3) as usize) % 5];
                 pos += 1;
                 (e.x(v), w)
             })
